@@ -105,7 +105,7 @@ Lemma rapply_push_copy basis r off len out a :
   rapply basis (push_copy r off len) = Some (out ++ a).
 Proof. intros Hr Ha. unfold push_copy.
   destruct r as [|[o l|d] r']; try (now apply rapply_snoc_copy).
-  destruct ((o + l =? off) && (l + len <? 2 ^ 32)) eqn:E; [|now apply rapply_snoc_copy].
+  destruct ((o + l =? off) && (l + len <? P32)) eqn:E; [|now apply rapply_snoc_copy].
   apply andb_prop in E as [E _]. apply Z.eqb_eq in E. subst off.
   unfold rapply in *. cbn [rev] in *. rewrite apply_ops_app in *. cbn [apply_ops] in *.
   destruct (apply_ops basis (rev r')) as [pre|]; [|discriminate].
@@ -172,6 +172,33 @@ Proof. revert l; induction fuel as [|f IH]; intros l Hb; cbn [chunks In]; [tauto
   destruct l as [|x l']; [cbn [In]; tauto|]. cbn [In]. intros [<-|Hin].
   - split; [apply Forall_firstn'; assumption|rewrite firstn_length; lia].
   - eapply IH; [|exact Hin]. apply Forall_skipn'; assumption. Qed.
+
+
+(** ** the execution-friendly scan computes the same delta *)
+Lemma unR_push_copy r o l : map unR (push_copyR r o l) = push_copy (map unR r) o l.
+Proof. unfold push_copyR, push_copy. destruct r as [|[o' l'|p] r']; cbn [map unR]; auto.
+  destruct ((o' + l' =? o) && (l' + l <? P32)); reflexivity. Qed.
+Lemma unR_push_lit_byte r x : map unR (push_lit_byteR r x) = push_lit_byte (map unR r) x.
+Proof. unfold push_lit_byteR, push_lit_byte. destruct r as [|[o' l'|p] r']; cbn [map unR]; auto.
+  unfold rev'. rewrite <- !rev_alt. reflexivity. Qed.
+Lemma unR_push_lit r d : map unR (push_litR r d) = push_lit (map unR r) d.
+Proof. unfold push_litR, push_lit. destruct d as [|x d]; [reflexivity|].
+  destruct r as [|[o' l'|p] r']; cbn [map unR]; unfold rev'; rewrite <- ?rev_alt, ?rev_append_rev;
+    rewrite ?rev_app_distr, ?rev_involutive, ?app_nil_r; reflexivity. Qed.
+
+Lemma scanR_scan fuel : forall sg rest ahead n st r,
+  map unR (scanR digest H deq bs bsz fuel sg rest ahead n st r) = scan fuel sg rest ahead n st (map unR r).
+Proof. induction fuel as [|f IH]; intros sg rest ahead n st r; cbn [Delta.scanR Delta.scan]; [reflexivity|].
+  destruct (bsz <=? n); [|apply unR_push_lit].
+  destruct (lookup sg st rest).
+  - rewrite IH, unR_push_copy. reflexivity.
+  - destruct rest; [reflexivity|]. rewrite IH, unR_push_lit_byte. reflexivity. Qed.
+
+Lemma compute_delta_fast_eq sg src :
+  compute_delta_fast digest H deq bs sg src = compute_delta sg src.
+Proof. unfold Delta.compute_delta_fast, Delta.compute_delta. f_equal.
+  destruct src; [reflexivity|]. destruct (s_blocks _ sg); [reflexivity|].
+  unfold rev'. rewrite <- rev_alt. rewrite scanR_scan. reflexivity. Qed.
 
 (** windows of the source *)
 Definition window (src win : list Z) : Prop := exists pre post, src = pre ++ win ++ post.
@@ -247,7 +274,7 @@ Proof. induction ops as [|[o l|d] ops IH]; intros out Hb; cbn [apply_ops validat
     destruct (IH b Hb eq_refl) as [V L]. rewrite V, L, app_length.
     pose proof (read_length _ _ _ _ Ea) as Hl.
     apply read_some in Ea as (A1 & A2 & A3 & _).
-    split; [|lia]. rewrite andb_true_r. apply Z.leb_le. unfold sat_add64. lia.
+    split; [|lia]. rewrite andb_true_r. apply Z.leb_le. unfold sat_add64. rewrite P64_val. lia.
   - destruct (apply_ops basis ops) as [b|] eqn:Eb; [|discriminate]. intros [= <-].
     destruct (IH b Hb eq_refl) as [V L]. rewrite L, app_length. split; [assumption|lia]. Qed.
 
@@ -272,7 +299,7 @@ Proof. intros Hb Hs. pose proof delta_ops_apply as Ha.
   replace (d_source_size _ (compute_delta (gen_signature basis) src)) with (Z.of_nat (length src)) by reflexivity.
   replace (d_checksum _ (compute_delta (gen_signature basis) src)) with (H src) by reflexivity.
   rewrite V, L. cbn [negb].
-  replace (Z.of_nat (length src) <? 2 ^ 64) with true by (symmetry; apply Z.ltb_lt; lia).
+  replace (Z.of_nat (length src) <? P64) with true by (symmetry; apply Z.ltb_lt; rewrite P64_val; lia).
   rewrite Z.eqb_refl. cbn [andb negb]. rewrite andb_false_r.
   destruct (deq (H src) (H src)); [reflexivity|congruence]. Qed.
 
@@ -297,7 +324,7 @@ Notation greedy_lit := (greedy_lit bs beq).
 
 Lemma lits_push_copy r o l : lits (push_copy r o l) = lits r.
 Proof. unfold push_copy. destruct r as [|[o' l'|d] r']; cbn [lits]; auto.
-  destruct ((o' + l' =? o) && (l' + l <? 2 ^ 32)); reflexivity. Qed.
+  destruct ((o' + l' =? o) && (l' + l <? P32)); reflexivity. Qed.
 Lemma lits_push_lit r d : lits (push_lit r d) = lits r + Z.of_nat (length d).
 Proof. unfold push_lit. destruct d as [|x d]; [cbn [length]; lia|].
   destruct r as [|[o' l'|p] r']; cbn [lits]; try lia. rewrite app_length. lia. Qed.
@@ -591,7 +618,7 @@ Lemma patch_panic_iff verify :
      ~ (out_len (d_ops _ d) < 2^64 /\ out_len (d_ops _ d) = d_source_size _ d)) /\
   patch false verify basis d <> PPanic.
 Proof. unfold Delta.patch. cbn [andb]. split.
-  - destruct (Z.ltb_spec (out_len (d_ops _ d)) (2 ^ 64)) as [E1|E1];
+  - destruct (Z.ltb_spec (out_len (d_ops _ d)) P64) as [E1|E1]; rewrite P64_val in E1;
       destruct (Z.eqb_spec (out_len (d_ops _ d)) (d_source_size _ d)) as [E2|E2]; cbn [andb negb].
     + split; [|intros Hn; exfalso; apply Hn; auto].
       intros Hp. exfalso. revert Hp.
